@@ -13,6 +13,7 @@ variants = [
   {name = "clipRows", enforce = "DensityGrid_clipRows", defines = ["H_CLIP"]},
   {name = "binContribution", enforce = "bin_contribution", defines = ["H_CONTRIB"], loop_contracts = false, solver = "kissat"},
   {name = "placementArea", enforce = "DensityGrid_computePlacementArea", defines = ["H_AREA"]},
+  {name = "blendShortcuts", enforce = "blend_shortcuts", defines = ["H_BLENDSC"], loop_contracts = false},
   {name = "blend", enforce = "blend_step", defines = ["H_BLEND"], loop_contracts = false, solver = "cvc5"},
 ]
 assumptions = ["not under contract: setupHierarchy/refine/coarsen (vector<vector<vector<int>>> cell lists), DensityLegalizer (bisection, transport glue), spreadCells (std::sort, std::accumulate in float): the clauses 'every cell in exactly one bin through any sequence of refine/coarsen/legalization passes', 'coordinates inside the bin' and 'coarser views aggregate exactly' are NOT decided",
@@ -264,6 +265,22 @@ __CPROVER_decreases(regions_size - _i_row)
 @*/
 #endif
 
+#ifdef H_BLENDSC
+/* the two shortcuts at the head of blendPlacement (text sliced from the repo): which vector is returned without blending */
+int g_short;   /* 0 = falls through to the element-wise blend, 1 = returns v1, 2 = returns v2 */
+void blend_shortcuts(int v1, int v2, float blending)
+__CPROVER_requires(v1 == 1 && v2 == 2 && g_short == 0 && !isnan(blending))
+/* C06: the export is the documented blend for EVERY accepted weight: the shortcuts apply only where the blend equals one operand exactly */
+__CPROVER_ensures(g_short == (blending == 0.0f ? 1 : (blending == 1.0f ? 2 : 0)))
+__CPROVER_assigns(g_short)
+/*@extract
+file = "src/place_global/place_global.cpp"
+head = 'std::vector<float> blendPlacement\(const std::vector<float> &v1,'
+slice_to = 'std::vector<float> ret;'
+rewrites = [['return (v1|v2);', '{ g_short = \1; return; }', '2']]
+@*/
+#endif
+
 #ifdef H_BLEND
 float g_out;
 #define VEC_PUSH_BACK_B(x) do { g_out = (x); } while (0)
@@ -302,6 +319,8 @@ void harness(void) {
   Rectangle r1, r2; bin_contribution(r1, r2);
 #elif defined(H_AREA)
   Rectangle *rs; DensityGrid_computePlacementArea(rs, a);
+#elif defined(H_BLENDSC)
+  float bl; blend_shortcuts(a, b, bl);
 #else
   float bl; blend_step(a, bl);
 #endif
